@@ -341,6 +341,58 @@ def _():
     tp.close()
 
 
+@step("Multiple Service Packet 0x0A through generic_message: dispatch, 0x1E, capacity, Micro800 flavour")
+def _():
+    tp = new_target(accept_large_fo=False)
+    drv = T.open_driver(CIPDriver, "192.168.1.10", tp)
+
+    def multi(*reqs):
+        n = len(reqs)
+        offs, o = [], 2 + 2 * n
+        for r in reqs:
+            offs.append(struct.pack("<H", o))
+            o += len(r)
+        return struct.pack("<H", n) + b"".join(offs) + b"".join(reqs)
+
+    def split(v):
+        n = struct.unpack_from("<H", v)[0]
+        offs = [struct.unpack_from("<H", v, 2 + 2 * i)[0] for i in range(n)] + [len(v)]
+        return [v[offs[i]:offs[i + 1]] for i in range(n)]
+
+    echo = lambda svc, d: bytes([svc, 3, 0x21, 0, 0x00, 0x03, 0x24, 1]) + d  # noqa: E731
+    tag = drv.generic_message(service=0x0A, class_code=2, instance=1, request_data=multi(echo(0x4B, b"one"), echo(0x4C, b"three")))
+    assert tag, tag
+    assert split(tag.value) == [b"\xcb\0\0\0one", b"\xcc\0\0\0three"], tag.value
+    ev = [e for e in tp.log() if e["ev"] == "request" and e["transport"][0] == "conn"]
+    assert [(e["service"], e["seq"]) for e in ev] == [(0x0A, 1), (0x4B, 1), (0x4C, 1)], ev
+    # one embedded error -> general status 0x1E, the other replies intact
+    n0 = tp.log_size()
+    tag = drv.generic_message(service=0x0A, class_code=2, instance=1, return_response_packet=True,
+                              request_data=multi(echo(0x4B, b"one"), bytes([0x0E, 2, 0x20, 0x77, 0x24, 1])))
+    resp = tag.value
+    assert resp.service_status == 0x1E and split(resp.data) == [b"\xcb\0\0\0one", b"\x8e\0\x05\0"], resp.data
+    # capacity: 500-byte connection, three 200-byte attributes: the third is answered 0x11, the whole reply fits
+    assert drv.generic_message(service=0x10, class_code=0x300, instance=1, attribute=1, request_data=bytes(200))
+    get = bytes([0x0E, 4, 0x21, 0, 0x00, 0x03, 0x24, 1, 0x30, 1])
+    tag = drv.generic_message(service=0x0A, class_code=2, instance=1, return_response_packet=True, request_data=multi(get, get, get))
+    parts = split(tag.value.data)
+    assert [len(p) for p in parts] == [204, 204, 4] and parts[2] == b"\x8e\0\x11\0", [p[:4] for p in parts]
+    assert len(drv.fakesock.received[-1]) - 44 <= 500
+    # malformed offset table
+    tag = drv.generic_message(service=0x0A, class_code=2, instance=1, request_data=struct.pack("<HHH", 2, 6, 6) + echo(0x4B, b"x"))
+    assert not tag
+    mal = [e for e in tp.log(n0) if e["ev"] == "malformed"]
+    assert mal == [{"ev": "malformed", "service": 10, "why": 64}], mal
+    # Micro800 flavour: no Multiple Service Packet
+    tp.cfg(multi_service=False)
+    tag = drv.generic_message(service=0x0A, class_code=2, instance=1, request_data=multi(echo(0x4B, b"one")))
+    assert not tag and "not supported" in tag.error.lower(), tag
+    drv.close()
+    assert not [e for e in tp.log() if e["ev"] in ("badframe", "oversize", "replytoolarge")]
+    frames_ok(tp, drv.fakesock)
+    tp.close()
+
+
 def main():
     bad = [r for r in RESULTS if not r[1]]
     print()
